@@ -13,6 +13,10 @@ pub mod c10;
 pub mod c11;
 pub mod c12;
 pub mod c15;
+pub mod c16;
+pub mod c17;
+pub mod c18;
+pub mod c19;
 pub mod c13;
 pub mod c14;
 
@@ -33,6 +37,10 @@ pub fn get(id: &str) -> Option<Box<dyn Prop>> {
         "C11" => Box::new(c11::C11),
         "C12" => Box::new(c12::C12),
         "C15" => Box::new(c15::C15),
+        "C16" => Box::new(c16::C16),
+        "C17" => Box::new(c17::C17),
+        "C18" => Box::new(c18::C18),
+        "C19" => Box::new(c19::C19),
         "C13" => Box::new(c13::C13),
         "C14" => Box::new(c14::C14),
         _ => return None,
